@@ -482,8 +482,9 @@ impl<'a, R: CharRead> Parser<'a, R> {
 
         for (i, desc) in self.stack.iter().rev().enumerate() {
             if i % 2 == 0 {
-                // expect a term or non-comma operator.
-                if let TokenType::Comma = desc.tt {
+                // expect a term or non-comma operator. A '|' declared as an
+                // operator has an operator's specifier but no term of its own.
+                if let TokenType::Comma | TokenType::HeadTailSeparator = desc.tt {
                     return None;
                 } else if is_term!(desc.spec) || is_op!(desc.spec) || is_negate!(desc.spec) {
                     arity += 1;
@@ -641,8 +642,9 @@ impl<'a, R: CharRead> Parser<'a, R> {
 
         for (i, desc) in self.stack.iter().rev().enumerate() {
             if i % 2 == 0 {
-                // expect a term or non-comma operator.
-                if let TokenType::Comma = desc.tt {
+                // expect a term or non-comma operator. A '|' declared as an
+                // operator has an operator's specifier but no term of its own.
+                if let TokenType::Comma | TokenType::HeadTailSeparator = desc.tt {
                     return None;
                 } else if is_term!(desc.spec) || is_op!(desc.spec) || is_negate!(desc.spec) {
                     arity += 1;
